@@ -1,5 +1,5 @@
 """C20 - rate limiters never exceed the quota and keep per-key order (DESIGN 6/C20)."""
-import vlib, tracecheck
+import vlib, parts_subject, tracecheck
 
 PID = 'C20'
 
@@ -9,6 +9,9 @@ def main(argv):
     vlib.build_harness()
     th = rep.tier == 'thorough'
     tracecheck.run(rep, PID, 'drive-ratelimit', 'RateLimitTrace', 'RateLimitTrace_x.cfg', 400 if th else 150, [rep.seed * 100 + i for i in range(8 if th else 2)], 'ratelimit', comp_key='Limiter')
+    # the native limiter keeps one unicast subject per key and per window: per-key order rests on the unicast subject delivering its queued
+    # backlog and the live values in one order when it is subscribed while the source keeps emitting (SubjectLin.tla, park mode)
+    parts_subject.lin_part(rep, PID, 40 if th else 12, [rep.seed * 100 + 60 + i for i in range(2 if th else 1)], park=True, kind='unicast')
     rep.cov['rule'] = ('seeded scenarios: native and ulule limiter, quota 1..3, window 5-20 ms, 1-3 keys, 5-40 items arriving in bursts / steadily / sparsely, synchronous and asynchronous '
                        'sources, consumers that dwell about a window on one item, completion and error; for ulule also 2-4 streams sharing ONE limiter over a store with latency; the recorded '
                        'trace is validated by TLC against RateLimitTrace.tla: order-preserving subsequence without duplicates per key, quota bound quota*(L div window + 2) over EVERY pair of '
@@ -18,4 +21,6 @@ def main(argv):
 
 
 def replay(path):
+    if 'subject-lin' in path:
+        return parts_subject.replay_lin(PID, path)
     return tracecheck.replay(PID, 'RateLimitTrace', 'RateLimitTrace_x.cfg', path)
